@@ -23,7 +23,7 @@ import time
 
 from vf.core import Check, REPO, HarnessError
 
-MODULES = ["Sem.Rel", "Model.Exec", "Proofs.Exec", "Generated.C11", "Properties.C11"]
+MODULES = ["Sem.Rel", "Model.Exec", "Model.ExecPlan", "Proofs.Exec", "Proofs.ExecPlan", "Generated.C11", "Properties.C11"]
 P = "SqlglotModel.Properties.C11."
 THEOREMS = [P + n for n in (
     "generated_cfg_ok",
@@ -44,6 +44,17 @@ THEOREMS = [P + n for n in (
     "unsorted_not_clustered_witness",
     "set_operation_spec",
     "sort_step_spec",
+    "sort_by_group_key_clusters",
+    "aggregate_spec",
+    "env_aggs_perm_invariant",
+    "aggregate_limit_spec",
+    "subquery_comparison_spec",
+    "scan_spec",
+    "single_table_query_spec",
+    "order_by_all_outputs_total",
+    "distinct_order_counterexample",
+    "duplicate_output_names_counterexample",
+    "alias_shadow_counterexample",
 )]
 
 CMP_PY = {ast.Eq: "eq", ast.NotEq: "ne", ast.Lt: "lt", ast.LtE: "le", ast.Gt: "gt", ast.GtE: "ge"}
@@ -499,6 +510,34 @@ def real_eval(e, row):
     return ctx.eval(code)
 
 
+def real_scan(static, cond, projs, limit, offset, rows):
+    from sqlglot import exp, planner
+    from sqlglot.executor.python import PythonExecutor
+    from sqlglot.executor.table import Table, ensure_tables
+
+    names = [("x", c) for c in COLS]
+    ex = PythonExecutor(tables=ensure_tables({"x": Table(COLS, [tuple(r) for r in rows])}))
+    st = planner.Scan()
+    st.name = "x"
+    st.source = None if static else exp.to_table("x").as_("x")
+    st.condition = to_sqlglot(cond, names) if cond is not None else None
+    st.projections = [exp.alias_(to_sqlglot(e, names), f"c{i}") for i, e in enumerate(projs)] if projs is not None else []
+    st.limit = math.inf if limit is None else limit
+    st.offset = offset
+    out = ex.scan(st, ex.context({})).tables["x"].rows
+    if offset:  # _execute
+        out = out[offset:]
+    return rows_json(out)
+
+
+def real_subq_cmp(fn, quantifier, v, xs):
+    from sqlglot.executor.table import Table
+
+    ex = executor()
+    ex._subquery_table = lambda plan_name, scope, args: Table(("v",), [(x,) for x in xs])
+    return ex._subquery_comparison(v, "_sq_0", None, fn, quantifier)
+
+
 def guarded(fn, *a):
     try:
         return fn(*a)
@@ -610,6 +649,32 @@ def build_cases(chk: Check):
         req = {"op": "sort", "items": items, "limit": limit, "offset": offset, "rows": rows_json(rows)}
         cases.append(("sort", req, guarded(real_sort, items, limit, offset, rows), False,
                       {"kind": "sort", "items": items, "limit": limit, "offset": offset, "rows": rows}))
+    # 10. scan() / static() / _project_and_filter
+    for _ in range(chk.pick(300, 3000)):
+        static = rng.random() < 0.1
+        rows = [] if static else rand_rows(rng, 6)
+        cond = None if static or rng.random() < 0.4 else rand_expr(rng, 3, depth=rng.choice([0, 1, 2]))
+        if static:
+            projs = [["lit", rng.choice([None, 1, "a"])] for _ in range(rng.randint(0, 2))] or None
+        else:
+            projs = None if rng.random() < 0.3 else [(["col", rng.randrange(3)] if rng.random() < 0.7 else rand_expr(rng, 3, depth=1))
+                                                    for _ in range(rng.randint(1, 3))]
+        limit = None if rng.random() < 0.5 else rng.choice([0, 1, 2, 3])
+        offset = 0 if rng.random() < 0.6 else rng.choice([1, 2])
+        cap = None if limit is None else limit + offset
+        req = {"op": "scan", "static": static, "cond": cond, "projs": projs, "cap": cap, "offset": offset, "rows": rows_json(rows)}
+        cases.append(("scan", req, guarded(real_scan, static, cond, projs, limit, offset, rows), False,
+                      {"kind": "scan", "cond": cond, "projs": projs, "limit": limit, "offset": offset, "rows": rows}
+                      if not static and limit is not None and projs and all(e[0] == "col" for e in projs) else None))
+    # 11. _subquery_comparison (ANY / ALL)
+    for _ in range(chk.pick(300, 3000)):
+        dom = STRS if rng.random() < 0.25 else INTS
+        fn = rng.choice(CMP_KEYS)
+        v = None if rng.random() < 0.15 else rng.choice(dom)
+        xs = [None if rng.random() < 0.25 else rng.choice(dom) for _ in range(rng.choice([0, 1, 2, 3, 4]))]
+        quant = rng.choice(["ANY", "ALL"])
+        cases.append(("subq_cmp", {"op": "subq_cmp", "fn": fn, "quantifier": quant, "v": v, "xs": xs},
+                      guarded(real_subq_cmp, fn, quant, v, xs), False, None))
     return cases
 
 
@@ -935,7 +1000,7 @@ def correspond_plan(chk: Check) -> None:
     """plan model vs real Step.from_expression (DAG shape), exec model vs real execute() (exact sequence), and the
     reference Query.eval vs SQLite / DuckDB on well-formed queries"""
     rng = chk.rng
-    n = chk.pick(260, 2600)
+    n = chk.pick(200, 2600)
     qs, dbs, lines = [], [], []
     for i in range(n):
         q = rand_squery(rng, wf=rng.random() < 0.6)
@@ -1171,6 +1236,12 @@ def root_causes(ir, res=None) -> list:
             tags.add("rc:duplicate-output-names")
         if q["distinct"] and q.get("order") and order_only:
             tags.add("rc:distinct-order")
+        # ORDER BY <table column> where an output alias re-uses that column's name for a different expression
+        if not q["joins"] and not q["group"] and not q["distinct"] and order_only:
+            for k in q.get("order") or []:
+                e = k["e"]
+                if e[0] == "col" and any(p["as"] == e[2] and p["e"] != e for p in q["proj"]):
+                    tags.add("rc:alias-shadows-order-column")
         if q["joins"]:
             operands = []
 
@@ -1307,6 +1378,40 @@ def gen_interaction(rng):
     return db, q
 
 
+def gen_alias_shadow(rng):
+    """Targeted family: a plain single-table SELECT whose output alias re-uses the name of ANOTHER table column,
+    ordered by that (qualified) table column first and then by every output (total order)."""
+    from vf.props import c11_oracle as O
+
+    t = rng.choice(O.TABLES)
+    q = O._empty_select(t, t)
+    cols = rng.sample(["a", "b", "c"], rng.choice([1, 2, 2, 3]))
+    proj = []
+    names = set()
+    for c in cols:
+        others = [x for x in ("a", "b", "c") if x != c and x not in names]
+        al = rng.choice(others) if others and rng.random() < 0.6 else rng.choice(["p", "q", "r", c])
+        if al in names:
+            al = "c%d" % len(proj)
+        names.add(al)
+        proj.append({"e": ["col", t, c], "as": al})
+    q["proj"] = proj
+    if rng.random() < 0.3:
+        q["where"] = O._Gen(rng).pred([t], 1, None)
+    first = [{"e": ["col", t, c], "desc": rng.random() < 0.5, "nf": rng.random() < 0.5}
+             for c in rng.sample(["a", "b", "c"], rng.choice([1, 2]))]
+    rest = [{"e": ["out", p["as"]], "desc": rng.random() < 0.5, "nf": rng.random() < 0.5} for p in proj]
+    q["order"] = first + rest
+    if rng.random() < 0.3:
+        q["limit"] = rng.randint(0, 3)
+        q["offset"] = rng.choice([None, 1])
+    if not O._valid(q):
+        return None
+    db = {x: [] for x in O.TABLES}
+    db[t] = [(rng.choice([None, 0, 1, 2]), rng.choice([None, 0, 1, 2]), rng.choice([None, "", "a", "b"])) for _ in range(rng.randint(2, 5))]
+    return db, q
+
+
 def search(chk: Check, hints: list, budget_s: float) -> None:
     from vf.props import c11_oracle as O
 
@@ -1321,7 +1426,7 @@ def search(chk: Check, hints: list, budget_s: float) -> None:
             examples[k].append(ex)
 
     # 1. disagreeing correspondence inputs, as end-to-end queries
-    for h in hints[:200]:
+    for h in [h for h in hints if h["kind"] != "scan"][:200]:
         r = hint_to_sql(h)
         if r is None:
             continue
@@ -1337,15 +1442,50 @@ def search(chk: Check, hints: list, budget_s: float) -> None:
                                  {"kind": "sql", "db": {k: rows_json(v) for k, v in db2.items()}, "sql": sql, "ordered": ordered, "which": list(which)})
         if len(chk.violations) >= 3:
             break
+    # 1b. LIMIT / OFFSET without ORDER BY (scan hints): any answer is allowed that is a sub-bag of the unlimited answer
+    #     with exactly min(limit, max(0, total - offset)) rows
+    for h in [h for h in hints if h["kind"] == "scan"][:60]:
+        names3 = [("x", c) for c in COLS]
+        sel = ", ".join(f"x.{COLS[e[1]]} AS c{i}" for i, e in enumerate(h["projs"]))
+        base = f"SELECT {sel} FROM x" + (f" WHERE {sql_of(h['cond'], names3)}" if h["cond"] is not None else "")
+        db = {"x": h["rows"], "y": [], "z": []}
+        full = engines().run(db, base)
+        if any(v[0] == "error" for v in full.values()) or canon(sorted(full["sqlite"][1], key=sort_rows_key)) != canon(sorted(full["duckdb"][1], key=sort_rows_key)):
+            continue
+        total = full["sqlite"][1]
+        sql = base + f" LIMIT {h['limit']} OFFSET {h['offset']}"
+        got = run_sqlglot(db, sql)
+        bump("hint:scan")
+        if got[0] in ("execute_error", "sqlglot_error", "leak"):
+            continue
+        want_n = min(h["limit"], max(0, len(total) - h["offset"]))
+        pool = [canon(r) for r in total]
+        ok = len(got[1]) == want_n
+        for r in got[1]:
+            if canon(r) in pool:
+                pool.remove(canon(r))
+            else:
+                ok = False
+        if not ok:
+            chk.report_violation("sql:" + sql_skeleton(sql), f"{sql} over {db}: execute() -> {got[1]}; every engine answer has {want_n} rows out of {total}",
+                                 {"kind": "limit", "db": {k: rows_json(v) for k, v in db.items()}, "sql": sql, "base": base,
+                                  "limit": h["limit"], "offset": h["offset"]})
+            break
     # 2. corpus + random queries of the fragment
     tried = 0
     while time.time() - t0 < budget_s and len(chk.violations) < 3:
         fam = None
-        if rng.random() < 0.15:
+        u = rng.random()
+        if u < 0.15:
             fam = gen_interaction(rng)
+            if fam is not None:
+                chk.count("family:distinct-group-keyexpr")
+        elif u < 0.19:
+            fam = gen_alias_shadow(rng)
+            if fam is not None:
+                chk.count("family:alias-shadows-column")
         if fam is not None:
             db, ir = fam
-            chk.count("family:distinct-group-keyexpr")
         else:
             db = O.gen_db(rng)
             ir = O.gen_query(rng)
@@ -1411,6 +1551,14 @@ def replay(path: str) -> int:
     if not r:
         print(json.dumps(rec, indent=1)[:4000])
         return 1
+    if r.get("kind") == "limit":
+        db = {k: [tuple(x) for x in v] for k, v in r["db"].items()}
+        total = engines().run(db, r["base"])["sqlite"][1]
+        got = run_sqlglot(db, r["sql"])
+        want_n = min(r["limit"], max(0, len(total) - r["offset"]))
+        bad = got[0] not in ("execute_error", "sqlglot_error", "leak") and len(got[1]) != want_n
+        print("replay:", f"VIOLATES: {r['sql']} returned {got[1]}; expected {want_n} rows" if bad else "holds")
+        return 1 if bad else 0
     if r.get("kind") == "sql":
         st, detail = compare_sql({k: [tuple(x) for x in v] for k, v in r["db"].items()}, r["sql"], r["ordered"], tuple(r.get("which", ("sqlite", "duckdb"))))
     else:
